@@ -11,16 +11,25 @@ git -C /repo worktree add -q --detach "$wt" "$base" || exit 2
 echo "applying to $base"
 ev=$(mktemp -d /tmp/verif-evidence-alt-XXXX)
 trap 'git -C /repo worktree remove --force "$wt"; rm -rf "$ev"' EXIT
-git -C "$wt" apply "$patch" || { echo "PATCH DOES NOT APPLY"; exit 2; }
+# TRY_BASELINE=1: the tree the change was written against, WITHOUT the change (what its base alone makes the checks report)
+if [ -z "$TRY_BASELINE" ]; then
+  git -C "$wt" apply "$patch" || { echo "PATCH DOES NOT APPLY"; exit 2; }
+fi
 ( cd "$wt" && GOFLAGS=-mod=mod GOPROXY=off go build ./... ) || { echo "DOES NOT BUILD"; exit 2; }
 "$(dirname "$0")/baseline.py" "$wt" | head -3
 for p in "$@"; do
   out=$(VERIF_REPO="$wt" VERIF_EVIDENCE="$ev" "$(dirname "$0")/vcheck" run "$p" 2>&1); e=$?
   echo "$p exit=$e $(echo "$out" | tail -1 | cut -c1-160)"
   if [ $e -eq 1 ]; then
-    python3 - "$p" "$ev" <<'PY'
-import json,glob,sys
+    python3 - "$p" "$ev" "$TRY_DUMP" <<'PY'
+import json,glob,sys,re
 seen={}
+pairs=set()
+for f in sorted(glob.glob("%s/replays/%s-*.json"%(sys.argv[2],sys.argv[1]))):
+    r=json.load(open(f)); v=r['finding']['violation']
+    pairs.add("%s %s %s"%(sys.argv[1],r['scenario'],v['clause']))
+if len(sys.argv)>3 and sys.argv[3]:
+    open(sys.argv[3],'a').write("".join(x+"\n" for x in sorted(pairs)))
 for f in sorted(glob.glob("%s/replays/%s-*.json"%(sys.argv[2],sys.argv[1]))):
     r=json.load(open(f)); v=r['finding']['violation']
     seen.setdefault((r['scenario'],v['clause']),[]).append((v['key'][:80],v['detail'][:220]))
